@@ -45,7 +45,7 @@ func c05Identity(r *R) {
 				case "(datatransfer.PauseableTransport).ResumeChannel":
 					idx = 2
 				}
-				got := r.d.Of(s.Common().Args[idx])
+				got := r.dOf(s.(ssa.Instruction)).Of(s.Common().Args[idx])
 				r.c.Check(got == x.want, "C05.1", r.siteKey(s)+"/chid", r.p.InstrPos(s), "transport acts on the sender-derived channel id", "transport call acts on "+got+" instead of the sender-derived id "+x.want)
 			}
 		}
@@ -56,7 +56,7 @@ func c05Identity(r *R) {
 		n := 0
 		for _, s := range r.sites(hs, false, "(network.Receiver).ReceiveRequest", "(network.Receiver).ReceiveResponse", "(network.Receiver).ReceiveRestartExistingChannelRequest") {
 			n++
-			got := r.d.Of(s.Common().Args[1])
+			got := r.dOf(s.(ssa.Instruction)).Of(s.Common().Args[1])
 			r.c.Check(got == "s.Conn().RemotePeer()", "C05.1", r.siteKey(s)+"/peer", r.p.InstrPos(s), "sender = s.Conn().RemotePeer()", "the sender handed to the receiver is "+got+", not the stream's authenticated remote peer")
 		}
 		r.c.Floor("C05.1", n, 3, "receiver dispatch sites in handleNewStream")
@@ -130,7 +130,7 @@ func c05Extension(r *R) {
 	for caller, ss := range r.p.Callers("(*transport/graphsync.Transport).processExtension") {
 		for _, s := range ss {
 			n++
-			chid, p := r.d.Of(core.Arg(s.Common(), 0)), r.d.Of(core.Arg(s.Common(), 2))
+			chid, p := r.dOf(s.(ssa.Instruction)).Of(core.Arg(s.Common(), 0)), r.dOf(s.(ssa.Instruction)).Of(core.Arg(s.Common(), 2))
 			okChid := strings.HasPrefix(chid, "t.requestIDToChannelID.load(") && strings.HasSuffix(chid, "#0")
 			r.c.Check(okChid && p == "p", "C05.2", "caller:"+core.ShortFn(caller), r.p.InstrPos(s), "extension processed for the request's own channel and the hook's peer", fmt.Sprintf("processExtension called with chid=%s peer=%s", chid, p))
 		}
